@@ -111,6 +111,19 @@ pub fn workers() -> usize {
     std::env::var("VERIF_WORKERS").ok().and_then(|s| s.parse().ok()).filter(|n| *n >= 1).unwrap_or(16)
 }
 
+extern "C" {
+    fn malloc_trim(pad: usize) -> i32;
+}
+
+/// glibc keeps one arena per thread and cannot give memory back while long-lived results are interleaved with the
+/// short-lived megabyte-sized values real FML programs allocate; without trimming, a long in-process batch grows by
+/// hundreds of MB per second until the OOM killer ends it. Trimming is purely a resource matter: it changes no result.
+pub fn trim_allocator() {
+    unsafe {
+        malloc_trim(0);
+    }
+}
+
 pub fn par_map<T, F>(n: usize, f: F) -> Vec<T>
 where
     T: Send,
@@ -130,6 +143,9 @@ where
                     }
                     let value = f(i);
                     *slots[i].lock().unwrap() = Some(value);
+                    if i % 512 == 511 {
+                        trim_allocator();
+                    }
                 })
                 .expect("cannot spawn worker");
         }
